@@ -40,6 +40,7 @@ func init() {
 			c13RingFollowsMembership(r)
 			c13DefaultsOnlyWhenUnset(r)
 			c13BackupOwnersPruned(r)
+			fragmentStatsTruthful(r)
 		},
 	})
 }
